@@ -4,7 +4,8 @@
 # every run; nothing about /repo is cached. The engine also links /repo's
 # build (only for the third-party codec boundary), so it is rebuilt whenever
 # /repo or the engine changed (go build is incremental).
-cd /verif || exit 2
+cd "$(dirname "$0")" || exit 2
+VERIF_DIR=$(pwd); export VERIF_DIR
 export GOFLAGS=-mod=mod GOPROXY=off GOTOOLCHAIN=local PATH=/opt/veriftools/go1.26.8/bin:$PATH
 unset GOSUMDB
 mkdir -p bin
